@@ -87,6 +87,55 @@ Proof.
     exists evs'. split; [exact D|]. split; [now rewrite E|exact W].
 Qed.
 
+
+Lemma trailers_frame_not_data_gen st : is_fdata (Encoder.trailers_frame st) = false.
+Proof. unfold Encoder.trailers_frame. now destruct (to_header_map st). Qed.
+
+(* ------------------------------------------------------------------------------------------
+   1b. Body::is_end_stream of EncodeBody
+   ------------------------------------------------------------------------------------------ *)
+Section EosProofs.
+Variable msg : Type.
+Variable enc : Type.
+Variable ser : msg -> option (list N).
+Variable compress : enc -> list N -> list N.
+Local Notation body_poll := (Encoder.body_poll msg enc ser compress).
+Local Notation body_trace := (Encoder.body_trace msg enc ser compress).
+Local Notation drive_eos := (drive_eos msg enc ser compress).
+
+(* a fresh body does not report end-of-stream (tonic::body::Body::new would replace it by the
+   empty body otherwise) *)
+Lemma eos_initially_false r : is_end_stream (Encoder.body_init r) = false.
+Proof. reflexivity. Qed.
+
+(* is_end_stream becomes true only in the poll that produces the frame which is not DATA (the
+   trailers of a server); a client body never reports it *)
+Lemma eos_step (c : Encoder.cfg enc) b src o b' src' :
+  body_poll c b src = (o, b', src') -> is_end_stream b = false -> is_end_stream b' = true ->
+  Encoder.b_role b = Encoder.Server /\ exists f, o = Encoder.BFrame f /\ is_fdata f = false.
+Proof.
+  unfold Encoder.body_poll, is_end_stream. intros H E. rewrite E in H.
+  destruct (Encoder.enc_poll msg enc ser compress c (Encoder.b_inner b) src) as [[p inner] s'].
+  destruct p; try (injection H as <- <- <-; cbn; congruence);
+    destruct (Encoder.b_role b); injection H as <- <- <-; cbn; try congruence;
+    intros _; (split; [reflexivity|]); eexists; (split; [reflexivity|]); apply trailers_frame_not_data_gen.
+Qed.
+
+(* a consumer that stops polling as soon as is_end_stream() answers true gets exactly the
+   frames of one that polls on: nothing (in particular not the trailers) is lost *)
+Theorem eos_loses_nothing (c : Encoder.cfg enc) : forall n b src,
+  Encoder.frames_of (drive_eos c n b src) = Encoder.frames_of (body_trace c n b src).
+Proof.
+  induction n as [|n IH]; intros b src; [reflexivity|].
+  cbn [Codec.drive_eos Encoder.body_trace]. unfold is_end_stream.
+  destruct (Encoder.b_end b) eqn:E.
+  - pose proof (Encoder.trace_ended msg enc ser compress c (S n) b src E) as T.
+    cbn [Encoder.body_trace] in T. rewrite T. symmetry. apply Encoder.frames_of_repeat_none.
+  - destruct (body_poll c b src) as [[o b'] src'].
+    unfold Encoder.frames_of in *. cbn [flat_map]. f_equal. apply IH.
+Qed.
+End EosProofs.
+
 (* ------------------------------------------------------------------------------------------
    2. through the DATA, up to whatever follows
    ------------------------------------------------------------------------------------------ *)
@@ -191,33 +240,38 @@ Lemma idle_end d0 d1 g : idle d0 d1 -> resp_ok dir0 tr0 ->
 Proof.
   intros Id RO. pose proof (idle_facts _ _ Id) as (_ & D & T & _).
   destruct Id as (NE & DC & _ & B & S).
-  rewrite (poll_next_knone_nil _ _ _ _ _ NE DC). cbn [poll_frame]. rewrite B, S. cbn [orb].
-  rewrite after_none_ok by (now rewrite D, T). reflexivity.
+  rewrite (poll_next_knone_nil _ _ _ _ _ NE DC). cbn [poll_frame].
+  rewrite (not_incomplete _ B S).
+  rewrite after_none_ok; [reflexivity|now rewrite D, T|exact (not_incomplete _ B S)].
 Qed.
 
 Definition merged (t : hm) : hm := match tr0 with Some t0 => hm_extend t0 t | None => t end.
 
 (* trailers whose status is not an error *)
-Lemma idle_trailers_ok d0 d1 g t rest : idle d0 d1 -> resp_ok dir0 (Some (merged t)) ->
+Lemma idle_trailers_ok d0 d1 g t rest : idle d0 d1 -> extend_may_panic tr0 t = false ->
+  resp_ok dir0 (Some (merged t)) ->
   poll_next (BTrailers t :: rest) g d0 = (Done, with_trailers d1 (Some (merged t)), rest, g).
 Proof.
-  intros Id RO. pose proof (idle_facts _ _ Id) as (_ & D & T & _).
+  intros Id NP RO. pose proof (idle_facts _ _ Id) as (_ & D & T & _).
   destruct Id as (NE & DC & _ & B & S).
   rewrite (poll_next_knone_cons _ _ _ _ _ _ _ NE DC).
-  cbn [answer_of poll_frame is_data is_trailers into_trailers]. rewrite T. fold (merged t).
-  rewrite after_none_ok; [reflexivity|]. cbn. now rewrite D.
+  cbn [answer_of poll_frame is_data is_trailers into_trailers]. rewrite T, NP. fold (merged t).
+  rewrite after_none_ok; [reflexivity| |].
+  - cbn. now rewrite D.
+  - apply not_incomplete; [exact B|exact S].
 Qed.
 
 (* trailers with an error status, read by a client: that status, once; the trailers are taken *)
-Lemma idle_trailers_err d0 d1 g t rest http e : idle d0 d1 -> dir0 = Response http ->
+Lemma idle_trailers_err d0 d1 g t rest http e : idle d0 d1 -> extend_may_panic tr0 t = false ->
+  dir0 = Response http ->
   infer_grpc_status (Some (merged t)) http = inr (Some e) ->
   exists d', poll_next (BTrailers t :: rest) g d0 = (Item (IErr e), d', rest, g) /\
              d_state d' = Error None /\ d_trailers d' = None.
 Proof.
-  intros Id Dr Inf. pose proof (idle_facts _ _ Id) as (_ & D & T & _).
+  intros Id NP Dr Inf. pose proof (idle_facts _ _ Id) as (_ & D & T & _).
   destruct Id as (NE & DC & _ & B & S).
   rewrite (poll_next_knone_cons _ _ _ _ _ _ _ NE DC).
-  cbn [answer_of poll_frame is_data is_trailers into_trailers]. rewrite T. fold (merged t).
+  cbn [answer_of poll_frame is_data is_trailers into_trailers]. rewrite T, NP. fold (merged t).
   unfold after_none, response. cbn [d_dir with_trailers d_trailers]. rewrite D, Dr, Inf.
   eexists. split; [reflexivity|]. split; reflexivity.
 Qed.
@@ -448,7 +502,7 @@ Proof.
     unfold Encoder.trailers_frame in *. rewrite TH in *. cbn [map bev_of_frame] in *.
     destruct (drain_through deser decompress lim e0 (Response 200) None [BTrailers t] _ evs (mkB 0) _ _ _ (le_n _) J0 DP)
       as (pre & d0 & d1 & Id & SP & Lp & DR).
-    destruct (idle_trailers_err deser decompress lim e0 (Response 200) None d0 d1 (mkB 0) t [] 200 st' Id eq_refl)
+    destruct (idle_trailers_err deser decompress lim e0 (Response 200) None d0 d1 (mkB 0) t [] 200 st' Id eq_refl eq_refl)
       as (d' & P & S' & _).
     { unfold merged, infer_grpc_status. rewrite FH.
       replace (st_code st' =? Code_Ok) with false; [reflexivity|].
